@@ -260,6 +260,10 @@ func (p *parser) readType() (t Type, err error) {
 			if err == nil && 0 < len(token) {
 				if t = p.root.GetType(token); t == nil {
 					t = &Ref{Base: Base{N: token}}
+				} else if _, ok := t.(*Directive); ok {
+					// GetType falls back on the directives. A directive of
+					// the name is not the type, that may still be to come.
+					t = &Ref{Base: Base{N: token}}
 				}
 			}
 		}
@@ -578,10 +582,10 @@ func (p *parser) readDirUse() (du *DirectiveUse, err error) {
 		return nil, parseError(p.line, p.col, "directive missing")
 	}
 	switch du.Directive.(type) {
-	case *Directive, *Ref, *List, *NonNull:
+	case *Directive, *List, *NonNull:
 	default:
 		// Types and directives have a name space each and readType looks
-		// at the types first. A type of the same name is not what is
+		// at the types only. A type of the same name is not what is
 		// meant, the directive is, already defined or still to come.
 		name := du.Directive.Name()
 		if du.Directive = p.root.dirs.get(name); du.Directive == nil {
